@@ -49,18 +49,31 @@ def handler : Handler := fun scn => do
   let dest := slotOf (obj scn "dest")
   let src := slotOf (obj scn "src")
   let empty := Json.arr #[]
+  -- the environment acts on the first call only (the cache catches up, the concurrent writer acts once)
+  let env : Env := { miss := bool scn "miss", swap := bool scn "swap" }
   if op == "publish" then
     let filter := strs scn "filter"
     let details := dataOf scn "details"
-    let (rs, fin) := iter rounds (publish (bool scn "wants") filter details) dest
+    let r0 := if rounds == 0 then none else some (publishE env (bool scn "wants") filter details dest)
+    let (rs, fin) := match r0 with
+      | none => ([], dest)
+      | some r => let (rs', f) := iter (rounds - 1) (publish (bool scn "wants") filter details) r.slot; (r :: rs', f)
     -- model-side monitor: only allowed keys are ever written; identical data is not rewritten
-    let ok := rs.all fun r => r.writes == 0 || r.published
+    let ok := rs.all fun r => r.writes == 0 || r.published || r.err
     let out := Json.mkObj [("dest", slotJson fin), ("src", slotJson none),
       ("published", bools (rs.map (·.published))), ("errs", bools (rs.map (·.err))),
       ("writes", Json.arr (rs.map fun r => Json.num r.writes).toArray), ("extracted", empty)]
     return (out, ok, if ok then "" else "C09:model")
   else if op == "propagate" then
-    let (rs, fin) := iter rounds (propagate (bool scn "fromWants") (bool scn "wants") src) dest
+    let r0 := if rounds == 0 then none else some (propagateE env (bool scn "fromWants") (bool scn "wants") src dest)
+    -- the concurrent writer acts when the first write to the claim's secret is attempted
+    let src' := match r0 with
+      | some r => if env.swap && r.writes > 0 then swappedSource src else src
+      | none => src
+    let (rs, fin) := match r0 with
+      | none => ([], dest)
+      | some r => let (rs', f) := iter (rounds - 1) (propagate (bool scn "fromWants") (bool scn "wants") src') r.slot; (r :: rs', f)
+    let src := src'
     let out := Json.mkObj [("dest", slotJson fin), ("src", slotJson src),
       ("published", bools (rs.map (·.published))), ("errs", bools (rs.map (·.err))),
       ("writes", Json.arr (rs.map fun r => Json.num r.writes).toArray), ("extracted", empty)]
